@@ -7,10 +7,11 @@
 (* For path-style sides the id IS the path (OidIsPath).                        *)
 (***************************************************************************)
 EXTENDS Naturals, Sequences, TLC, Json
-CONSTANTS MaxLen, GSides, OidIsPath
+CONSTANTS MaxLen, GSides, OidIsPath, CaseVariants
 VARIABLE h
 
-PathsU == { <<10, 1>>, <<10, 3>>, <<10, 3, 1>> }
+\* <<10, 7>> ("D") differs from <<10, 3>> ("d") only by case: on a case-insensitive side the two spell one path
+PathsU == IF CaseVariants THEN { <<10, 1>>, <<10, 3>>, <<10, 7>>, <<10, 3, 1>> } ELSE { <<10, 1>>, <<10, 3>>, <<10, 3, 1>> }
 Oids   == {1, 2}
 Ev == IF OidIsPath
       THEN [op : {"update"}, side : GSides, otype : {1, 2}, path : PathsU, oid : {0}, hash : {0, 1, 2}, exists : {0, 1},
